@@ -163,7 +163,10 @@ impl Run {
         // simplest (shortest key) first
         unknown.sort_by_key(|(k, _)| (k.len(), k.clone()));
         if !unknown.is_empty() {
-            let listing: Vec<String> = unknown.iter().map(|(k, vs)| format!("{}\t{}", vs.len(), k)).collect();
+            let listing: Vec<String> = unknown
+                .iter()
+                .map(|(k, vs)| format!("{}\t{}\t{}", vs.len(), k, vs[0].replay.to_string().chars().take(600).collect::<String>()))
+                .collect();
             let _ = std::fs::write(format!("{dir}/all_keys.txt"), listing.join("\n"));
         }
         for (i, (k, vs)) in unknown.iter().enumerate() {
